@@ -25,6 +25,7 @@ import (
 
 	"verifmc/core"
 	"verifmc/node"
+	"verifmc/vtask"
 
 	"github.com/LemoFoundationLtd/lemochain-core/chain/params"
 	"github.com/LemoFoundationLtd/lemochain-core/chain/types"
@@ -282,21 +283,40 @@ type nut struct {
 	clean bool
 }
 
+// drain runs the goroutines the engines have asked for (the `go` statements of chain and
+// chain/consensus are gated through the source overlay) to completion, with the node's own key as
+// the process-global self key. Without this they run whenever the Go scheduler likes, possibly
+// while the block factory has switched the self key to a deputy's: a background batch confirm then
+// signs a stable block "as that deputy" at an arbitrary moment, which looked like a side effect of
+// whatever block was being rejected at that time.
+func drain(n *node.Node) {
+	n.Use()
+	for len(vtask.Pending()) > 0 {
+		vtask.Run(0)
+	}
+}
+
 func newNut(st state) *nut {
 	n := node.NewNode(core.ScratchDir("c02o"), nDep, node.K("observer"))
+	drain(n)
 	for _, e := range st.blocks {
 		if strings.HasPrefix(e, "cf:") {
 			p := strings.Split(e, ":")
 			var d int
 			fmt.Sscanf(p[2], "%d", &d)
 			b := tr.blocks[p[1]]
+			n.Use()
 			n.BC.InsertConfirms(b.Height(), b.Hash(), []types.SignData{node.SignConfirm(node.Deputy(d), b.Hash())})
+			drain(n)
 			continue
 		}
+		n.Use()
 		if err := n.BC.InsertBlock(node.Wire(tr.blocks[e])); err != nil {
 			panic("harness: state block " + e + " rejected: " + err.Error())
 		}
+		drain(n)
 	}
+	drain(n)
 	return &nut{st: st, n: n, clean: true}
 }
 
@@ -499,6 +519,7 @@ func runCase(u *nut, c caseID, all []op, r *core.Result) *nut {
 		return u
 	}
 	desc := c.String(all)
+	drain(u.n) // anything the factory's own engine queued while building the candidate
 	before := u.snapshot()
 	u.n.Use()
 	var ierr error
@@ -511,6 +532,8 @@ func runCase(u *nut, c caseID, all []op, r *core.Result) *nut {
 			}
 		}()
 		ierr = u.n.BC.InsertBlock(&wire)
+		// background work the insertion started belongs to its effects: run it before looking
+		drain(u.n)
 	}()
 	if !u.clean {
 		// the instance is poisoned (panic while holding the chain lock): abandon without Close
@@ -612,6 +635,7 @@ func enumerate(all []op) []caseID {
 func main() {
 	core.ParseFlags()
 	node.Quiet()
+	vtask.SetPolicy(vtask.Gated, "runFeedTranspondLoop", vtask.Drop)
 	all := ops()
 	cases := enumerate(all)
 	if core.Opt.Replay != "" {
